@@ -516,6 +516,31 @@ def rule_stage(fx, rep, nxt):
                     rep.violation("C10-STAGE", f"C10-STAGE/rewind/{norm(hb.name).split('::')[-1]}", f"`{hb.name}` line {st.get('line')} enters the BadCaptures stage at a place where `{park}` has not been found "
                                   "to be Some: the index is not rewound to the first parked move there, so the stage starts past the captures and the parked losing captures are never yielded",
                                   {"fn": hb.name, "file": hb.file, "line": st.get("line")})
+    # `None` ends the stream: next() may hand back a possibly-empty Option produced by a combinator (`.filter(..)`, `.map(..)` on
+    # next_best_move) only in the last yielding stage; in an earlier stage a `None` there is read by the search as "no more moves"
+    # although later stages still hold moves (seed C10-13a: `return Some(killer2).filter(|m| Some(*m) != hash_move)`)
+    last_stage = max((v for v in order.values()))
+    for bb, t in nxt.calls():
+        if t["dest"]["l"] != 0 or t["dest"].get("p"):
+            continue
+        cn = norm(callee_name(t) or "")
+        if "Option" not in cn:
+            continue
+        cur = None
+        for (e, pol, w) in guard_conditions(nxt, bb, expand_named=True):
+            g = stage_guard(nxt, e, pol)
+            if g:
+                cur = g
+        if cur is None or cur not in order:
+            continue
+        n += 1
+        # the last stages: nothing that yields comes after them
+        good = order[cur] >= last_stage - 1
+        rep.obligation(good)
+        if not good:
+            ok = False
+            rep.violation("C10-STAGE", f"C10-STAGE/early-none/{cur}", f"MovePicker::next line {t.get('line')}: in stage {cur} the function returns the result of `{cn.split('::')[-1]}` on an Option, which can be None: "
+                          "the search takes that for the end of the stream while later stages still hold moves", {"fn": nxt.name, "file": nxt.file, "line": t.get("line")})
     rep.rule("C10-STAGE", n, 12, ok, "stage assignments move forward; parked moves are revisited")
 
 
@@ -583,6 +608,8 @@ def rule_loud(fx, rep, nxt):
 
 M = "src/engine/search/move_picker.rs"
 MUTANTS = [
+    {"name": "Killer2 returns Some(k).filter(..): None in the middle of the stream (seed C10-13a)", "expect": "C10-STAGE/early-none/Killer2",
+     "edits": __import__("shared_mutants").edits_from_patch("seeded/C10-13a/patch.diff")},
     {"name": "without quiet moves the picker jumps to BadCaptures without the rewind (seed C10-11a)", "expect": "C10-STAGE/rewind",
      "edits": __import__("shared_mutants").edits_from_patch("seeded/C10-11a/patch.diff")},
     {"name": "remembered move already at the head of the quiets is not taken out of the segment (seed C10-7b)", "expect": "C10-SEGMENTS/pulled-forward",
